@@ -503,6 +503,22 @@ fn read_operations_since_from_file(
                 total_size,
                 no_more_smaller
             );
+            if opp_time == since {
+                // Several records can carry the same timestamp (e.g. one snapshot of many
+                // databases): go back to the first record of the run the search landed in
+                let mut first = seek_point;
+                let mut probe = [0; OP_TIME_SIZE];
+                while first >= size_as_u64 {
+                    f.seek(SeekFrom::Start(first - size_as_u64)).unwrap();
+                    match f.read(&mut probe) {
+                        Ok(n) if n == OP_TIME_SIZE && u64::from_le_bytes(probe) == since => {
+                            first = first - size_as_u64
+                        }
+                        _ => break,
+                    }
+                }
+                f.seek(SeekFrom::Start(first + OP_TIME_SIZE as u64)).unwrap();
+            }
             while let Ok(byte_read) = f.read(&mut key_buffer) {
                 if byte_read == 0 {
                     break;
